@@ -69,7 +69,11 @@ func runFaultCase(c *ctx, fc faultCase) (labels []string) {
 		}
 		switch idpFaultKind {
 		case "idp4xx":
-			return &idpFault{status: 400, body: `{"error":"invalid_grant","error_description":"revoked"}`}
+			return clientRejection(0)
+		case "idp4xx-html":
+			return clientRejection(1)
+		case "idp4xx-empty":
+			return clientRejection(2)
 		case "idpgarbage":
 			return &idpFault{status: 200, body: "<html>proxy error</html>"}
 		}
@@ -217,7 +221,7 @@ func runFault(c *ctx) {
 			c.emit("faultdry", "handler", h, "prestate", p, "labels", labels)
 			for i, l := range labels {
 				if strings.HasPrefix(l, "IDP") {
-					for _, k := range []faultPlan{{i, "idp5xx", 1}, {i, "idp5xx", 2}, {i, "idp5xx", -1}, {i, "idp4xx", -1}, {i, "idpgarbage", -1}} {
+					for _, k := range []faultPlan{{i, "idp5xx", 1}, {i, "idp5xx", 2}, {i, "idp5xx", -1}, {i, "idp4xx", -1}, {i, "idp4xx-html", -1}, {i, "idp4xx-empty", -1}, {i, "idpgarbage", -1}} {
 						k := k
 						cases = append(cases, faultCase{h, p, &k})
 					}
